@@ -60,7 +60,7 @@ def finish(chk, col, pid):
     chk.extra["probe_runs"] = col.runs
     chk.extra["stray_wakes_delivered"] = col.stray_delivered
     chk.extra["faults_injected"] = col.injected
-    chk.extra["runs"] = col.summaries[:40]
+    chk.extra["runs"] = sorted(col.summaries, key=lambda r: r["run"].startswith("tour-"))[:40]
     chk.extra["runs_total"] = len(col.summaries)
     chk.assumptions = [
         "x86_64 only (the aarch64 trampoline is not executed)",
